@@ -7,6 +7,7 @@ PROPS = {"C16"}
 ASSUMPTIONS = [
     "'visible at that point of its pipeline' is read as: defined earlier in the same pipeline (table-ref column or compute); a column hidden by an intermediate Select may still be referenced (e.g. Take.sort)",
     "Loop bodies are exempt from the from/select framing rule (their lowering drops both by design) but not from id rules",
+    "the columns of the table instance introduced by an Append are not visible to later transforms of that pipeline (the pipeline keeps the top relation's columns; the SQL back-end's determine_select_columns ignores them too)",
     "table ids must be declared earlier in `tables` than the table that references them; the main relation may reference any declared table",
 ]
 
